@@ -6,6 +6,7 @@ import (
 	"os"
 	"runtime"
 	"strconv"
+	"strings"
 	"sync"
 	"sync/atomic"
 	"time"
@@ -25,8 +26,8 @@ type Sched struct {
 	// is therefore the explicit id set of a dump, not a watermark.
 	base map[int64]struct{}
 	ctl  int64
-	ops   []*Op
-	buf   []byte
+	ops  []*Op
+	buf  []byte
 	// Snapshots counts goroutine dumps taken (reported in evidence).
 	Snapshots int
 }
@@ -105,6 +106,7 @@ type GState struct {
 	ID    int64
 	State string
 	Top   string // first function line of its stack
+	Stack string // the goroutine's frames as printed
 }
 
 var parkedStates = map[string]bool{
@@ -116,7 +118,6 @@ var parkedStates = map[string]bool{
 	"sync.RWMutex.RLock":      true,
 	"sync.Cond.Wait":          true,
 	"sync.WaitGroup.Wait":     true,
-	"semacquire":              true,
 	"chan receive (nil chan)": true,
 	"chan send (nil chan)":    true,
 	"select (no cases)":       true,
@@ -124,7 +125,22 @@ var parkedStates = map[string]bool{
 
 // IsParked reports whether a dump state can only be ended by another goroutine
 // (given that no timers are in play).
+//
+// "semacquire" is deliberately NOT a parked state by itself: the runtime uses it
+// for its own semaphores too. A goroutine whose allocation starts a GC cycle
+// while the controller holds the world stopped for the dump waits in
+// "semacquire" on the runtime's worldsema - for the controller, not for a peer
+// - and runs on as soon as the dump is done (observed: the detector returned
+// early about once in a thousand cases). It counts as parked only when the
+// stack shows sync.(*WaitGroup).Wait.
 func IsParked(state string) bool { return parkedStates[state] }
+
+func (g GState) parked() bool {
+	if parkedStates[g.State] {
+		return true
+	}
+	return g.State == "semacquire" && strings.Contains(g.Stack, "sync.(*WaitGroup).Wait")
+}
 
 // Dump takes a stop-the-world snapshot of all goroutines.
 func (s *Sched) Dump() []GState {
@@ -175,6 +191,13 @@ func parseDump(b []byte) []GState {
 		if i := bytes.IndexByte(b, '\n'); i >= 0 {
 			g.Top = string(b[:i])
 		}
+		if g.State == "semacquire" {
+			if i := bytes.Index(b, []byte("\n\n")); i >= 0 {
+				g.Stack = string(b[:i])
+			} else {
+				g.Stack = string(b)
+			}
+		}
 		out = append(out, g)
 	}
 	return out
@@ -203,7 +226,7 @@ func (s *Sched) Quiesce() ([]GState, error) {
 			if _, old := s.base[g.ID]; old || g.ID == s.ctl {
 				continue
 			}
-			if IsParked(g.State) {
+			if g.parked() {
 				parked = append(parked, g)
 			} else {
 				busy = append(busy, g)
